@@ -34,7 +34,7 @@ def groups():
     sc = parse("panoptica/utils/segmentation_class.py")
     h = find_func(sc, "has_defined_labels_for", "SegmentationClassGroups")
     hs = ast.unparse(h)
-    for need in ["arr_labels = [i for i in np.unique(arr) if i != 0]", "for al in arr_labels:\n        if al not in self.labels:\n            if raise_error:\n                raise AssertionError("]:
+    for need in ["arr_labels = arr if isinstance(arr, list) else [i for i in np.unique(arr) if i != 0]", "for al in arr_labels:\n        if al not in self.labels:\n            if raise_error:\n                raise AssertionError("]:
         if need not in hs:
             raise Refuse("has_defined_labels_for: missing " + need.split("\n")[0])
     if "labels = [value_label for lg in self.__group_dictionary.values() for value_label in lg.value_labels]" not in ast.unparse(find_func(sc, "__init__", "SegmentationClassGroups")):
